@@ -551,6 +551,10 @@ func c08Gen(r *Rand, tier string) []string {
 	}
 	// 3f. the time helpers in a time world (`exprt`, c08time.go): zone tables and dateparse answers in the case
 	out = append(out, c08tGen(sub(0x74696d65), tier)...)
+	// 3g. span wrap: every helper that computes a difference / sum / product / quotient of TWO user integers
+	// gets pairs whose difference (sum, product) is not an int64
+	wide, wideInf := c08SpanGen(sub(0x7370616e), tier)
+	out = append(out, wide...)
 	// 4. the family generators (boundary values per helper)
 	for _, gen := range exprGens {
 		cases := c08SafeGen(gen, NewRand(r.U64()))
@@ -570,7 +574,124 @@ func c08Gen(r *Rand, tier string) []string {
 	if tier == "thorough" {
 		infCap = 8
 	}
-	return c08CapInf(out, infCap)
+	// the wide {@range}s that run to the cap are a family of their own (not competing with the random ones
+	// for the budget above)
+	return append(c08CapInf(out, infCap), wideInf...)
+}
+
+// c08Wide: integers whose pairwise differences, sums and products leave int64 (both ends, ±2^62 and its
+// neighbours, ±5·10^18 - twice that is beyond 2^63 -, the small values)
+var c08Wide = []string{"-9223372036854775808", "-9223372036854775807", "-5000000000000000000", "-4611686018427387905", "-4611686018427387904",
+	"-1", "0", "1", "4611686018427387903", "4611686018427387904", "5000000000000000000", "9223372036854775806", "9223372036854775807"}
+
+// c08SpanGen: see 3g.  The second result holds the {@range}s of a span beyond 2^63 with a small step: they run
+// to MAX_ITERATIONS (`<INF>`), a million interpreted rounds for the model each, so there are only a few.
+func c08SpanGen(r *Rand, tier string) (out, inf []string) {
+	add := func(t string, el []string) {
+		out = append(out, ExprCase(r.Bool(), t, el, nil))
+	}
+	bi := func(s string) *big.Int { v, _ := new(big.Int).SetString(s, 10); return v }
+	min64, max64 := bi("-9223372036854775808"), bi("9223372036854775807")
+	// {@range a b incr}: the step is chosen so that the loop makes k rounds (k = 1, 2, 5, 9) however wide the
+	// span is - a pre-computed count `(stop-start)/incr` wraps exactly here -, in both directions
+	for i, a := range c08Wide {
+		for _, b := range c08Wide[i+1:] {
+			span := new(big.Int).Sub(bi(b), bi(a))
+			for _, k := range []int64{1, 2, 5, 9} {
+				step := new(big.Int).Div(new(big.Int).Add(span, new(big.Int).SetInt64(k-1)), new(big.Int).SetInt64(k)) // ceil(span/k)
+				if step.Cmp(max64) > 0 {
+					step = new(big.Int).Set(max64)
+				}
+				if step.Sign() == 0 {
+					continue
+				}
+				if tier != "thorough" && r.Chance(1, 3) {
+					continue
+				}
+				var el []string
+				add("{@range "+c08Arg(r, a, &el, false)+" "+c08Arg(r, b, &el, false)+" "+c08Arg(r, step.String(), &el, false)+"}", el)
+				el = nil
+				add("{@range "+c08Arg(r, b, &el, false)+" "+c08Arg(r, a, &el, false)+" "+c08Arg(r, new(big.Int).Neg(step).String(), &el, false)+"}", el)
+				if k == 1 { // the other end of int64 as the step
+					add("{@range "+a+" "+b+" 9223372036854775807}", nil)
+					add("{@range "+b+" "+a+" -9223372036854775808}", nil)
+					add("{@len {@range "+a+" "+b+" "+step.String()+"}}", nil)
+				}
+			}
+		}
+	}
+	// short ranges that touch the ends of int64 (the overflow `break` in front of `i += incr`)
+	for _, d := range []int64{0, 1, 2, 5} {
+		for _, inc := range []string{"", "1", "2", "3", "4611686018427387904", "9223372036854775807"} {
+			lo, hi := new(big.Int).Sub(max64, new(big.Int).SetInt64(d)).String(), max64.String()
+			add("{@range "+lo+" "+hi+" "+inc+"}", nil)
+			lo, hi = min64.String(), new(big.Int).Add(min64, new(big.Int).SetInt64(d)).String()
+			add("{@range "+lo+" "+hi+" "+inc+"}", nil)
+			if inc != "" {
+				var el []string
+				add("{@range "+c08Arg(r, hi, &el, false)+" "+c08Arg(r, lo, &el, false)+" -"+inc+"}", el)
+			}
+		}
+	}
+	// two-operand integer helpers over every pair; three operands by draws
+	n3 := 120
+	if tier == "thorough" {
+		n3 = 1500
+	}
+	for _, fn := range []string{"sumi", "subi", "multi", "divi", "modi", "maxi", "mini", "bucket", "bucketrange", "lt", "gte", "eq", "pow", "sumf", "subf", "multf"} {
+		for _, a := range c08Wide {
+			for _, b := range c08Wide {
+				if tier != "thorough" && r.Chance(1, 2) {
+					continue
+				}
+				var el []string
+				if fn == "bucket" || fn == "bucketrange" { // the size is a constant of the template
+					add("{"+fn+" "+c08Arg(r, a, &el, false)+" "+b+"}", el)
+				} else {
+					add("{"+fn+" "+c08Arg(r, a, &el, false)+" "+c08Arg(r, b, &el, false)+"}", el)
+				}
+			}
+		}
+	}
+	for i := 0; i < n3; i++ {
+		var el []string
+		a, b, c := c08Arg(r, Pick(r, c08Wide), &el, false), c08Arg(r, Pick(r, c08Wide), &el, false), c08Arg(r, Pick(r, c08Wide), &el, false)
+		switch r.Intn(8) {
+		case 0:
+			add("{"+Pick(r, []string{"sumi", "subi", "multi", "divi", "modi", "maxi", "mini"})+" "+a+" "+b+" "+c+"}", el)
+		case 1:
+			add("{clamp "+a+" "+b+" "+c+"}", el)
+		case 2:
+			add("{substr "+quoteArg(Pick(r, []string{"", "a", "abcdef", "\xe2\x82\xac\xe2\x82\xac"}))+" "+a+" "+b+"}", el)
+		case 3:
+			add("{@slice {@ a b c d} "+a+" "+b+"}", el)
+		case 4:
+			add("{percent "+a+" 1 "+b+" "+c+"}", el)
+		case 5:
+			add("{bar "+a+" "+Pick(r, c08Wide)+" "+Pick(r, []string{"0", "1", "10", "65536"})+"}", el)
+		case 6:
+			add("{! \"[0] "+Pick(r, []string{"+", "-", "*", "/", "%", "<<", ">>", "&", "|", "^"})+" [1]\" "+a+" "+b+"}", el)
+		default:
+			add("{"+Pick(r, []string{"expbucket", "hi", "durationformat", "bytesize", "@range", "isint", "ceil"})+" "+a+"}", el)
+		}
+	}
+	// the wide spans with the default step / a small step
+	infT := [][]string{{"{@range -9223372036854775808 9223372036854775807}"}, {"{@range -5000000000000000000 5000000000000000000}"},
+		{"{@range {0} {1}}", "-9223372036854775808", "9223372036854775807"}, {"{@range 9223372036854775807 -9223372036854775808 -1}"},
+		{"{@range {0} {1} 3}", "-5000000000000000000", "5000000000000000000"}, {"{@range -9223372036854775808 1}"},
+		{"{@range 4611686018427387904 -4611686018427387905 -2}"}, {"{@range -1 9223372036854775807}"}}
+	keep := 3
+	if tier == "thorough" {
+		keep = len(infT)
+	}
+	pick := 2 + r.Intn(len(infT)-2)
+	for i, c := range infT {
+		if (i < 2 || i == pick || tier == "thorough") && keep > 0 {
+			inf = append(inf, ExprCase(r.Bool(), c[0], c[1:], nil))
+			keep--
+		}
+	}
+	return out, inf
 }
 
 // c08SafeGen runs a family generator of another property; some of them evaluate real code while
